@@ -127,6 +127,10 @@ Print Assumptions dom_antisym.
 Theorem topo_check_sound : forall vs es l, topo_ok vs es l = true -> topo_order es vs l.
 Proof. exact OrderProofs.topo_ok_sound. Qed.
 Print Assumptions topo_check_sound.
+(* ... and complete: every topological order is accepted (the validator cannot raise a false alarm) *)
+Theorem topo_check_complete : forall vs es l, topo_order es vs l -> topo_ok vs es l = true.
+Proof. exact OrderProofs.topo_ok_complete. Qed.
+Print Assumptions topo_check_complete.
 
 (* [V] the validator for transitive predecessors (p is in the set of v iff there is a non-empty walk p ->+ v) *)
 Theorem trans_preds_check_sound : forall vs es m, trans_preds_ok vs es m = true ->
